@@ -106,6 +106,23 @@ Theorem C04_duplicate_mp_refuted :
 Proof. exact dup_mp_diverge. Qed.
 Print Assumptions C04_duplicate_mp_refuted.
 
+(* BMP dump phase: the End-of-RIB test the implementation uses (routecore is_eor: the first
+   MP_UNREACH_NLRI yields no prefix) also fires on UPDATEs that carry routes; such an UPDATE
+   ended the dump phase without being exploded. Reproduced on the real code by engine c04bmp
+   and repaired (fix: commit in the rotonda tree, known_findings C04-bmp-false-eor). *)
+Theorem C04_eor_shortcut_refuted :
+  wf upd_eorlike = true /\ lax_eor upd_eorlike = true /\ is_eor upd_eorlike = false
+  /\ events upd_eorlike = [EvA F4U (MkPfx 8 [10]) (u_attrs upd_eorlike)].
+Proof. exact lax_eor_drops. Qed.
+Print Assumptions C04_eor_shortcut_refuted.
+
+(* with the guard of the repair (no withdrawn routes, no NLRI, no MP_REACH_NLRI) the shortcut
+   can only skip UPDATEs that yield no route at all *)
+Theorem C04_eor_shortcut_guarded : forall u,
+  carries_routes u = false -> lax_eor u = true -> events u = [].
+Proof. exact guarded_eor_drops_nothing. Qed.
+Print Assumptions C04_eor_shortcut_guarded.
+
 (* non-vacuity: a well-formed UPDATE with a conventional withdrawal, ORIGIN with
    extended length, MP_REACH for IPv6 multicast, MP_UNREACH of an unsupported
    family, and a conventional /0 and /25 *)
